@@ -490,6 +490,10 @@ func checkC05(rc *Run) error {
 			{"timestamp-in-a-flow-sequence", "[2001-12-14T21:59:43Z, a]\n"},
 			{"timestamp-in-a-block-map", "t: 2001-12-14T21:59:43Z\n"},
 			{"url-in-a-flow-sequence", "[http://x.y/z, 1:30]\n"},
+			// leading comments whose last line is shorter than four bytes
+			{"short-last-leading-comment", "# c\n#d\n"},
+			{"short-only-comment", "#c\n"},
+			{"short-last-leading-comment-no-eol", "# c\n#d"},
 		} {
 			d0 := runProc(xdir, []byte(xc.text), "-o=json", "-I0", probe)
 			p1 := runProc(xdir, []byte(xc.text), ".")
@@ -499,7 +503,15 @@ func checkC05(rc *Run) error {
 			d1 := runProc(xdir, []byte(p1.Stdout), "-o=json", "-I0", probe)
 			p2 := runProc(xdir, []byte(p1.Stdout), ".")
 			concrete := M{"machine": "YamlDoc", "concrete": M{"argv": []string{"yq", "."}, "stdin": xc.text}}
-			if d1.Code != 0 || d1.Stdout != d0.Stdout {
+			lost := ""
+			for _, l := range strings.Split(xc.text, "\n") {
+				if strings.HasPrefix(l, "#") && !strings.Contains("\n"+p1.Stdout, "\n"+l) {
+					lost = l
+				}
+			}
+			if lost != "" {
+				rc.Report("extra-comment-lost:"+xc.name, fmt.Sprintf("yq . on %q prints %q: the comment %q is gone", xc.text, p1.Stdout, lost), concrete)
+			} else if d1.Code != 0 || d1.Stdout != d0.Stdout {
 				rc.Report("extra-data:"+xc.name, fmt.Sprintf("yq . on %q prints %q: types and values were %s and are %s (%s)", xc.text, p1.Stdout, strings.TrimSpace(d0.Stdout), strings.TrimSpace(d1.Stdout), firstLine(d1.Stderr)), concrete)
 			} else if p2.Code != 0 || p2.Stdout != p1.Stdout {
 				rc.Report("extra-not-a-fixpoint:"+xc.name, fmt.Sprintf("yq . on its own output %q prints %q", p1.Stdout, p2.Stdout), concrete)
